@@ -729,3 +729,39 @@ def modified_set_complete(ctx, rule):
                "inside a loop, L%d): columns assigned through the other partition are treated as unmodified — uniqueness, index "
                "maintenance and ON UPDATE actions are skipped for them" % pushed[root[0]][0].line, c.loc())
     ctx.floor(rule + ".modified_sets", n, 1)
+
+
+def key_cleared_per_row(ctx, rule, floor=8):
+    """KEY-CLEARED-PER-ROW: the DML entry points build index keys in one reused buffer.  Where a B-tree insert/delete inside a loop
+    uses a key that is (partly) encoded inside that loop, the buffer is cleared inside the same loop, before the use: with the clear
+    hoisted out of the loop the second row's key is appended to the first row's, the index entry of every row but the first is not
+    found (DELETE/UPDATE leave stale entries) or is stored under a concatenated key (INSERT)."""
+    m = ctx.m
+    n = 0
+    for name, fid in sorted(ENTRIES.items()):
+        f0 = m.fn(fid)
+        for f in [f0] + list(common.all_closures(m, f0)):
+            loops = [(h, set(b)) for h, b in f.loops()]
+            if not loops:
+                continue
+            clears = [(c, _buf_root(f, c.args[0])) for c in f.calls if c.name.rsplit("::", 1)[-1] == "clear" and c.args]
+            encs = [(c, _buf_root(f, c.args[1])) for c in f.calls if c.name.rsplit("::", 1)[-1] == "encode_value_as_key" and len(c.args) >= 2]
+            k = 0
+            for c in f.calls:
+                t = c.name.rsplit("::", 1)[-1]
+                if not c.name.startswith("btree::tree::BTree::") or t not in ("insert", "delete") or len(c.args) < 2:
+                    continue
+                root = _buf_root(f, c.args[1])
+                inside = [(h, b) for h, b in loops if c.bb in b]
+                if root is None or not inside:
+                    continue
+                h, body = min(inside, key=lambda x: len(x[1]))
+                if not any(r == root and e.bb in body for e, r in encs):
+                    continue
+                n += 1
+                k += 1
+                ok = any(r == root and cl.bb in body and f.dominates(cl.bb, c.bb) for cl, r in clears)
+                ctx.ob(rule, "%s:%s#%d" % (name, t, k), ok, "key buffer cleared inside the row loop before the %s" % t if ok else
+                       "the key buffer of this index %s is filled inside the loop but never cleared inside it: from the second row on the key is "
+                       "the concatenation of all earlier keys, so entries are not found / stored under the wrong key" % t, c.loc())
+    ctx.floor(rule + ".sites", n, floor)
